@@ -17,6 +17,7 @@ Python sources mirrored (pinned in harness/c06.py):
   mesonbuild/mintro.py                 _list_buildoptions/add_keys, get_test_list, list_targets (dependencies),
                                        list_install_plan (exclude_*), write_intro_info
   mesonbuild/dependencies/base.py      Dependency.__init__ (`name = f'dep{uuid4().int}'`)
+  mesonbuild/depfile.py                DepFile.get_all_dependencies
 Core Lean only (no Mathlib): this file is compiled into the native driver.
 -/
 namespace MesonModel.Det
@@ -254,6 +255,50 @@ def targetDependencies (fresh : Nat → Str) (deps : List DepRef) : List Str := 
 (after 41e7e99) — `exclude` holds two `set`s -/
 def installPlanExcludes (filesIter dirsIter : List Str) : List Str × List Str :=
   (sortedStrs dirsIter, sortedStrs filesIter)
+
+/-! ### `DepFile.get_all_dependencies` (mesonbuild/depfile.py) — feeds `build_def_files`, hence the
+`build build.ninja: REGENERATE_BUILD …` inputs and intro-buildsystem_files.json -/
+
+/-- `set(l)` as a list without repetitions -/
+def dedup (l : List Str) : List Str := l.foldr (fun a acc => if a ∈ acc then acc else a :: acc) []
+
+/-- `sorted(set(l))` -/
+def sortedSet (l : List Str) : List Str := sortedStrs (dedup l)
+
+/-- `self.depfile`: target ↦ `Target.deps` (a set; the list is its iteration order); `[]` when absent -/
+def depsAt (df : List (Str × List Str)) (t : Str) : List Str := (df.lookup t).getD []
+
+/-- the method as written: depth-first walk with a shared `visited` set, every level returns
+`sorted(deps)`.  Returns (result, visited).  (`Target` is a one-field NamedTuple, hence always truthy:
+only a missing entry returns `[]`.) -/
+def allDepsDfs (df : List (Str × List Str)) : Nat → Str → List Str → List Str × List Str
+  | 0, _, visited => ([], visited)
+  | fuel + 1, name, visited =>
+    if name ∈ visited then ([], visited)
+    else
+      let visited := name :: visited
+      match df.lookup name with
+      | none => ([], visited)
+      | some ds =>
+        let st := ds.foldl (fun (st : List Str × List Str) d =>
+          let r := allDepsDfs df fuel d st.2
+          (st.1 ++ r.1, r.2)) (ds, visited)
+        (sortedSet st.1, st.2)
+
+def getAllDependenciesDfs (df : List (Str × List Str)) (name : Str) : List Str :=
+  (allDepsDfs df (df.length + 2) name []).1
+
+/-- the same function stated without the walk: the sorted set of the dependencies of every entry
+reachable from `name` (`df.length` rounds reach every entry; compared with the walk and with the
+implementation on every run) -/
+def stepSet (df : List (Str × List Str)) (S : List Str) : List Str := S ++ S.flatMap (depsAt df)
+
+def reachN (df : List (Str × List Str)) : Nat → List Str → List Str
+  | 0, S => S
+  | n + 1, S => reachN df n (stepSet df S)
+
+def getAllDependencies (df : List (Str × List Str)) (name : Str) : List Str :=
+  sortedSet ((reachN df df.length [name]).flatMap (depsAt df))
 
 /-! ### files: `replace_if_different`, `os.replace`, in-place rewrite; a reconfigure -/
 
